@@ -169,7 +169,7 @@ def main():
                         res['status'][key] = 'Ok'
                     except Exception as e:   # noqa
                         res['status'][key] = errclass(e) + ': ' + str(e)[:200]
-                if full and case.get('single'):
+                if case.get('single'):
                     out_arr(res, 'single', np.array([asm.entry(int(i), int(j)) for (i, j) in case['single']]))
                 # rows through nonzeros_for_rows
                 if case.get('rows') is not None:
